@@ -449,8 +449,16 @@ func c10ExecNet(r *sim.Run, sc *c10Scenario) {
 				if op.BodyLen > 0 {
 					bodyRd = strings.NewReader(strings.Repeat("b", op.BodyLen))
 				}
-				stdr, err := http.NewRequestWithContext(stdcontext.Background(), http.MethodPost, "http://gateway.example.com"+path, bodyRd)
+				// optionally a request deadline of the client's own, far beyond anything the pool may
+				// take (2.5 h): it must never be what ends an attempt
+				cctx, cancelDL := stdcontext.Background(), func() {}
+				if op.DeadlineUs > 0 {
+					cctx, cancelDL = stdcontext.WithTimeout(cctx, 9000*time.Second)
+					r.Probe("c10.net.clientdeadline.request_with_later_deadline")
+				}
+				stdr, err := http.NewRequestWithContext(cctx, http.MethodPost, "http://gateway.example.com"+path, bodyRd)
 				if err != nil {
+					cancelDL()
 					return
 				}
 				stdr.RemoteAddr = "203.0.113.9:40000"
@@ -510,6 +518,7 @@ func c10ExecNet(r *sim.Run, sc *c10Scenario) {
 				}
 				finish(st, result, status, body, rerr, hasResp, dur, pnc, stack)
 				ctx.Finish()
+				cancelDL()
 			}
 		})
 	}
